@@ -359,6 +359,8 @@ def event_to_case(e):
     """bind event -> (trace record, case dict) or None when outside the modelled fragment"""
     if e.get("round") != "check":
         return None
+    if e.get("class") in ("Untyped", "untyped", "Unknown", "", None):
+        return None          # a call on a receiver of unknown class: there is no declaration to judge against
     decl = []
     keys = set()
     for d in e.get("decl") or []:
